@@ -54,15 +54,16 @@ def clause_store_both(prog, rep, scope):
                   "intact-wiring", "%s/wrapper_event_id" % inst,
                   "wrapper_event_id is the wrapper event's id", "wrapper_event_id is not wired to the wrapper event id",
                   "%s:%s" % (f.file, s.get("line")))
-        # epoch provenance (C02.4): the epoch the message was sent in
+        # epoch provenance (C02.4): the stored epoch IS the result of ProcessedMessage::epoch() (copy provenance)
         o = A.agg_field_operand(s, "epoch")
-        og = A.origins(prog, f, o["p"][0], scope=core) if o and "p" in o else None
-        from_msg = bool(og) and og.has_call(lambda c: c.name == "epoch" and last_seg(c.self_adt) == "ProcessedMessage")
-        from_grp = bool(og) and og.has_call(lambda c: c.name == "epoch" and last_seg(c.self_adt) == "MlsGroup")
-        rep.check(from_msg and not from_grp, "message-epoch-provenance", "%s/epoch" % inst,
-                  "stored Message.epoch derives from ProcessedMessage::epoch() (the epoch the message was sent in)",
-                  "stored Message.epoch derives from %s: a late message from an older epoch is filed under the receiver's epoch and "
-                  "is invalidated by a rollback although valid on every branch" % ("MlsGroup::epoch() of the receiver" if from_grp else "neither source"),
+        pr = A.producers(prog, f, o["p"][0], scope=core) if o and "p" in o else None
+        names = sorted(set("%s::%s" % (last_seg(c.self_adt), c.name) for c in pr["calls"])) if pr else []
+        from_msg = bool(pr) and any(c.name == "epoch" and last_seg(c.self_adt) == "ProcessedMessage" for c in pr["calls"])
+        other = [n for n in names if n != "ProcessedMessage::epoch"]
+        rep.check(from_msg and not other, "message-epoch-provenance", "%s/epoch" % inst,
+                  "stored Message.epoch is exactly ProcessedMessage::epoch() (the epoch the message was sent in)",
+                  "stored Message.epoch is produced by %s: a late message from an older epoch is filed under the receiver's epoch and "
+                  "is invalidated by a rollback although valid on every branch" % (names or "nothing traceable"),
                   "%s:%s" % (f.file, s.get("line")))
 
 
